@@ -231,7 +231,17 @@ impl<'a> Gen<'a> {
                 let truncate = write && !append && self.rng.chance(1, 4);
                 FsOp::Open { h, path, read, write, append, truncate, create, create_new, front: self.front() }
             }
-            1 => FsOp::Close { h: self.handle(m)? },
+            1 => {
+                // every fourth time, where a write-only append handle is open: try_clone it into another slot
+                let ap: Vec<u8> = m.handles.iter().filter(|(_, h)| h.append && !h.read).map(|(k, _)| *k).collect();
+                if !ap.is_empty() && self.rng.chance(1, 4) {
+                    let h = *self.rng.pick(&ap);
+                    let new = (h + 1 + self.rng.below(3) as u8) % 4;
+                    FsOp::TryClone { h, new }
+                } else {
+                    FsOp::Close { h: self.handle(m)? }
+                }
+            }
             2 => {
                 let h = self.handle(m)?;
                 FsOp::WriteAt { h, off: self.rng.below(20), len: self.rng.range(0, 12) as u32, tag: self.next_tag() }
